@@ -39,7 +39,7 @@ def run(chk, repo: Repo):
     chk.rule("C08-R4", "transition: log-domain slice, one fresh direction per doubling, accept guard, paired cache update, count update after the test, loop condition, tuning statistic", floor=2)
     chk.rule("C08-R5", "dual averaging: H_bar, epsilon, epsilon_bar updates with the documented dependence and signs", floor=2)
     chk.rule("C08-R6", "the cached (log-density, gradient) pair of the stateful NUTS always belongs to current_point: evaluated there, or adopted "
-                       "together with the point", floor=5)
+                       "together with the point; a function outside the kernel that stores current_point recomputes the pair or restores it together", floor=5)
     from ..cachepoint import cache_point_rule
     cache_point_rule(chk, repo, "C08-R6", [repo.cls("cuqi/experimental/mcmc/_hmc.py:NUTS")])
     from ..cachepoint import point_writers_rule
